@@ -20,6 +20,7 @@ What is kernel-checked here
 * `decode_no_panic`          no `unwrap`/`assert` of `decode` can fire, for ANY token list
 -/
 import MsVerif.Lemmas.LexEncode
+import MsVerif.Lemmas.LexCanon
 import MsVerif.Lemmas.DecodeEncode
 import MsVerif.Lemmas.DecodeNoPanic
 import MsVerif.Lemmas.TokensNorm
@@ -125,6 +126,38 @@ theorem lex_canonical_full_false : ¬ lex_canonical_full := by
 /-- the repaired lexer (`strict`) rejects that byte string -/
 theorem lexStrict_rejects_witness : lexG true [0x51, 0x9c, 0x69] = .error .nonMinimalVerify := rfl
 
+/-- T2b for the repaired lexer: it accepts only the canonical serialisation of its tokens
+(direct minimal pushes, minimal numbers, `OP_n` for 0..16, fused `*VERIFY`) -/
+theorem lexStrict_canonical (bs : Bytes) (ts : List Token) (h : lexG true bs = .ok ts) :
+    tokBytes ts = bs :=
+  LexL.lexStrict_canonical bs ts h
+
+/-- the repaired lexer accepts nothing the real one rejects, with the same tokens -/
+theorem lexStrict_sub (bs : Bytes) (ts : List Token) (h : lexG true bs = .ok ts) : lex bs = .ok ts :=
+  lexB_strict' bs.length bs none ts (Nat.le_refl _) h
+
+/-- T2b, the strongest true statement about the lexer that exists: an accepted byte string is
+the canonical serialisation of its tokens UNLESS the repaired lexer rejects it as a non-minimal
+`VERIFY` — i.e. the `NUMEQUAL VERIFY` pair is the only non-canonical form that gets through -/
+theorem lex_canonical_partial (bs : Bytes) (ts : List Token) (h : lex bs = .ok ts) :
+    tokBytes ts = bs ∨ lexG true bs = .error .nonMinimalVerify := by
+  rcases lexB_strict bs.length bs none ts (Nat.le_refl _) h with h1 | h1
+  · exact .inl (LexL.lexStrict_canonical bs ts h1)
+  · exact .inr h1
+
+/-- two different byte strings with the same tokens: one of them contains a split `VERIFY` -/
+theorem lex_injective_partial (bs₁ bs₂ : Bytes) (ts : List Token)
+    (h1 : lex bs₁ = .ok ts) (h2 : lex bs₂ = .ok ts) :
+    bs₁ = bs₂ ∨ lexG true bs₁ = .error .nonMinimalVerify ∨ lexG true bs₂ = .error .nonMinimalVerify := by
+  rcases lex_canonical_partial bs₁ ts h1 with e1 | e1
+  · rcases lex_canonical_partial bs₂ ts h2 with e2 | e2
+    · exact .inl (e1.symm.trans e2)
+    · exact .inr (.inr e2)
+  · exact .inr (.inl e1)
+
+example : tokBytes [.num 1, .numEqual, .verify] = [0x51, 0x9d] :=
+  lexStrict_canonical [0x51, 0x9d] _ rfl
+
 /-! ### T3: decoding an encoding -/
 
 /-- the decoder, run on the tokens of `ms`, returns `ms` and consumes every token — for `ms`
@@ -172,6 +205,16 @@ theorem decode_encode_norm (dec : AtomDec) (env : KeyEnv) (ctx : Ctx) (ms : Ms)
   exact decode_encode dec env ctx (norm ms) hform hok
 
 example : norm Toy.m2 = Toy.m1 := by decide +kernel
+
+/-- why `decode_encode_norm` needs `from_ast` to accept the NORMAL FORM: re-association can raise
+the tree height, so a miniscript at the recursion limit (402) has a normal form above it — on
+the library: `and_v(v:n:…n:pk(A),and_v(v:pk(B),pk(C)))` with 399 `n:` (height 402) is accepted
+by `from_ast` and `validate(CONSENSUS)`, yet `decode_consensus(encode(ms))` fails with
+`MaxRecursiveDepthExceeded` (known finding, harness corpus) -/
+theorem norm_raises_height_witness :
+    let ms : Ms := .andV (.verify (.zeroNotEqual (Toy.pk 1))) (.andV (Toy.vpk 2) (Toy.pk 3))
+    (extOf Toy.env .tap (norm ms)).treeHeight = (extOf Toy.env .tap ms).treeHeight + 1 := by
+  decide +kernel
 
 /-- the normal form and the de-sugaring keep the token list (so the re-encoding of what the
 decoder returns is byte-identical, by `lex_serialize` on both sides) -/
